@@ -250,6 +250,7 @@ func runVp8UnmarshalSeq(payloads [][]byte, descs []*vp8Desc, rests [][]byte) Out
 	var o Outcome
 	d := &codecs.VP8Packet{}
 	res := VList{}
+	afterReject := false
 	for i, in := range payloads {
 		g, buf := newGuarded(in)
 		var out []byte
@@ -267,11 +268,14 @@ func runVp8UnmarshalSeq(payloads [][]byte, descs []*vp8Desc, rests [][]byte) Out
 		if err != nil {
 			res = append(res, T(1, L(I(int64(errClass(err))), Bool(head))))
 			o.Tags = append(o.Tags, "vp8 rejected")
-			d = &codecs.VP8Packet{}
-			continue
+			afterReject = true
+			continue // the receiver is kept: a rejected payload must not show in the next result
 		}
 		o.Nontrivial = true
 		o.Tags = append(o.Tags, "vp8 accepted")
+		if afterReject {
+			o.Tags = append(o.Tags, "accepted into a receiver that had rejected an input")
+		}
 		res = append(res, OkV(L(vVp8Pkt(d), Bool(head))))
 		if !bytes.Equal(out, d.Payload) {
 			o.Fail = fmt.Sprintf("step %d: returned bytes differ from Payload field", i)
